@@ -332,6 +332,19 @@ def dispatch_batch(args):
     return res
 
 
+def fix_env():
+    """which of the delivered fixes the tree under test contains (read from its source, so that the
+    mechanism model of the spec is the transcription of THIS tree)"""
+    from ..common import REPO
+    src = open(os.path.join(REPO, "src", "interrogate", "interfaceMakerPythonNative.cxx"), errors="replace").read()
+    e = {}
+    if "arg_val == -1 && PyErr_Occurred()" in src:
+        e["VERIF_FIX_INTERR"] = "1"
+    if "max_passed_args" in src:
+        e["VERIF_FIX_EXTRA"] = "1"
+    return e
+
+
 def eval_sets(ctx_tmp, sets, tag="eval", workers=6):
     """phase 2: TLC evaluates the spec on the selected sets; returns the evaluated records in order"""
     sel = os.path.join(ctx_tmp, tag + "_sets.json")
@@ -339,7 +352,7 @@ def eval_sets(ctx_tmp, sets, tag="eval", workers=6):
     dump = os.path.join(ctx_tmp, tag + "_calls.ndjson")
     if os.path.exists(dump):
         os.unlink(dump)
-    res = tlc.run("PyDispatchEval", "PyDispatch_eval", workers=workers, env={"VERIF_SETS": sel, "VERIF_DUMP": dump}, timeout=1500)
+    res = tlc.run("PyDispatchEval", "PyDispatch_eval", workers=workers, env=dict(fix_env(), VERIF_SETS=sel, VERIF_DUMP=dump), timeout=1500)
     out = [dict(kind=s["kind"], ov=s["ov"], calls=[]) for s in sets]
     for r in tlc.read_dump(dump):
         out[r.pop("s") - 1]["calls"].append(r)
@@ -548,3 +561,553 @@ def objects_batch(args):
                last_at=next((r["at"] for r in reversed(recs) if "at" in r), None),
                finished=any("done" in r for r in recs))
     return res
+
+
+# ---- names --------------------------------------------------------------------------------------------------
+# transcriptions of checkKeyword / classNameFromCppName / methodNameFromCppName / methodRenameDictionary
+# (interfaceMakerPythonNative.cxx) as functions on identifiers
+PY_KEYWORDS = ["and", "as", "assert", "async", "await", "break", "class", "continue", "def", "del", "elif", "else",
+               "except", "exec", "finally", "for", "from", "global", "if", "import", "in", "is", "lambda", "nonlocal",
+               "not", "or", "pass", "print", "raise", "return", "try", "while", "with", "yield"]
+BAD_CHARS = "!@#$%^&*()<>,.-=+~{}? "
+RENAME = {"operator ==": "__eq__", "operator !=": "__ne__", "operator <<": "__lshift__", "operator >>": "__rshift__",
+          "operator <": "__lt__", "operator >": "__gt__", "operator <=": "__le__", "operator >=": "__ge__",
+          "operator =": "assign", "operator ()": "__call__", "operator []": "__getitem__",
+          "operator ++unary": "increment", "operator ++": "increment", "operator --unary": "decrement",
+          "operator --": "decrement", "operator ^": "__xor__", "operator %": "__mod__", "operator !": "logicalNot",
+          "operator ~unary": "__invert__", "operator &": "__and__", "operator &&": "logicalAnd", "operator |": "__or__",
+          "operator ||": "logicalOr", "operator +": "__add__", "operator -": "__sub__", "operator -unary": "__neg__",
+          "operator *": "__mul__", "operator /": "__div__", "operator +=": "__iadd__", "operator -=": "__isub__",
+          "operator *=": "__imul__", "operator /=": "__idiv__", "operator ,": "concatenate", "operator |=": "__ior__",
+          "operator &=": "__iand__", "operator ^=": "__ixor__", "operator ->": "dereference",
+          "operator <<=": "__ilshift__", "operator >>=": "__irshift__", "operator typecast bool": "__bool__",
+          "print": "Cprint"}
+
+
+def check_keyword(name):
+    return "_" + name if name in PY_KEYWORDS else name
+
+
+def class_name_from_cpp(cpp, mangle):
+    out, next_cap, next_us, first = "", False, False, mangle
+    for ch in cpp:
+        if ch in "_ " and mangle:
+            next_cap = True
+        elif ch in BAD_CHARS:
+            next_us = not mangle
+        elif ch == ":":
+            if out and out[-1] != ".":
+                out += "."
+            first = first or mangle
+        elif next_cap or first:
+            out += ch.upper()
+            next_cap = first = False
+        elif next_us:
+            out += "_" + ch
+            next_us = False
+        else:
+            out += ch
+    return check_keyword(out)
+
+
+def method_name_from_cpp(cpp, mangle):
+    orig = cpp[6:] if cpp.startswith("__py__") else cpp
+    out, next_cap = "", False
+    for ch in orig:
+        if ch in "_ " and mangle:
+            next_cap = True
+        elif ch in BAD_CHARS:
+            if not mangle:
+                out += "_"
+        elif next_cap:
+            out += ch.upper()
+            next_cap = False
+        else:
+            out += ch
+    if orig in RENAME:
+        out = RENAME[orig]
+    return check_keyword(out)
+
+
+IDENTS = ["a", "ab_cd", "ab__cd", "get_x2_y", "trail_", "MixedCase", "mixedCase", "x_1", "UPPER_CASE", "a_b_c_d",
+          # Python keywords that are ordinary identifiers in C++
+          "as", "async", "await", "def", "del", "elif", "except", "exec", "finally", "from", "global", "import",
+          "in", "is", "lambda", "nonlocal", "pass", "raise", "with",
+          # names that become keywords only after mangling, or stop being one
+          "class_", "is_", "in_", "not_", "Pass", "pass_"]
+CLASS_IDENTS = ["plain", "lower_case_name", "CamelCase", "with_2_digits", "A_b", "trailing_", "yield"]
+RUNTIME_NAMES = {"DtoolClassDict", "DtoolGetSuperBase", "this", "this_const", "this_metatype", "this_ownership"}
+MODULE_RUNTIME = {"Dtool_BorrowThisReference", "Dtool_PyNativeInterface"}
+
+
+def names_library():
+    """hand-laid-out library over the identifier grammar; returns (header, source, expected, evals)
+    expected: {python scope ('' = module, 'Cls', 'Cls.Inner'): set of names}; evals: {expr: repr}"""
+    H = ["__begin_publish", "#define NAMES_VERSION 42", "#define Mixed_manifest 7",
+         "enum Color { C_red, C_dark_green = 5, plainvalue = 9 };",
+         "enum class ScopedMode { SM_on = 1, SM_off = 2 };",
+         "int global_func(int first_arg, int second_arg = 3);", "int unary_global(int v);"]
+    X = ["int global_func(int a, int b) { return a * 10 + b; }", "int unary_global(int v) { return v + 1; }"]
+    exp = {"": set()}
+    ev = {}
+
+    def both(scope, fn, ident):
+        exp.setdefault(scope, set()).update([fn(ident, False), fn(ident, True)])
+    for m in ("NAMES_VERSION", "Mixed_manifest", "C_red", "C_dark_green", "plainvalue"):
+        both("", class_name_from_cpp, m)
+    exp[""].add("ScopedMode")
+    for g in ("global_func", "unary_global"):
+        both("", method_name_from_cpp, g)
+    # two identifiers may be given the same Python name (ab_cd / ab__cd, in / in_): the value is
+    # asserted only for names that a single identifier produces
+    owners = {}
+    for g in IDENTS:
+        for mg in (False, True):
+            owners.setdefault(method_name_from_cpp(g, mg), set()).add(g)
+    for i, g in enumerate(IDENTS):
+        H.append("int %s(int v);" % g)
+        X.append("int %s(int v) { return v + %d; }" % (g, 100 + i))
+        both("", method_name_from_cpp, g)
+        for mg in (False, True):
+            if len(owners[method_name_from_cpp(g, mg)]) == 1:
+                ev["m.%s(1)" % method_name_from_cpp(g, mg)] = repr(101 + i)
+    H.append("__end_publish")
+    ev.update({"m.NAMES_VERSION": "42", "m.%s" % class_name_from_cpp("NAMES_VERSION", True): "42", "m.Mixed_manifest": "7",
+               "m.C_dark_green": "5", "m.CDarkGreen": "5", "m.plainvalue": "9", "m.Plainvalue": "9",
+               "m.ScopedMode.SM_off.value": "2", "m.global_func(4)": "43", "m.globalFunc(4, 5)": "45",
+               "m.global_func(first_arg=1, second_arg=2)": "12", "m.global_func(second_arg=2, first_arg=1)": "12"})
+    for ci, cn in enumerate(CLASS_IDENTS):
+        pyc = class_name_from_cpp(cn, False)
+        both("", class_name_from_cpp, cn)
+        H.append("class %s {\nPUBLISHED:\n  %s();" % (cn, cn))
+        X.append("%s::%s() : _value(%d) {}" % (cn, cn, ci))
+        sc = exp.setdefault(pyc, set())
+        for i, g in enumerate(IDENTS):
+            H.append("  int %s(int v) const;" % g)
+            X.append("int %s::%s(int v) const { return v + %d; }" % (cn, g, 100 * ci + i))
+            both(pyc, method_name_from_cpp, g)
+            if ci == 0 and len(owners[method_name_from_cpp(g, True)]) == 1:
+                ev["m.%s().%s(1)" % (pyc, method_name_from_cpp(g, True))] = repr(1 + i)
+        H += ["  static int static_method(int v);", "  int get_value() const;", "  void set_value(int v);",
+              "  MAKE_PROPERTY(value, get_value, set_value);", "  MAKE_PROPERTY(read_only_prop, get_value);",
+              "  int get_num_items() const;", "  int get_item(int n) const;",
+              "  MAKE_SEQ(get_items, get_num_items, get_item);",
+              "  enum Kind { K_small, K_very_large = 11 };", "  enum class Inner_mode { IM_a = 3 };",
+              "  class Inner_part {\n  PUBLISHED:\n    Inner_part();\n    int get_x() const;\n  };",
+              "  int operator + (int v) const;", "  int operator - () const;", "  int operator () (int v) const;",
+              "  bool operator == (const %s &o) const;" % cn, "  bool operator < (const %s &o) const;" % cn,
+              "  %s &operator += (int v);" % cn, "  int operator * (int v) const;",
+              "public:\n  int _value;\n};"]
+        X += ["int %s::static_method(int v) { return v * 2; }" % cn, "int %s::get_value() const { return _value; }" % cn,
+              "void %s::set_value(int v) { _value = v; }" % cn, "int %s::get_num_items() const { return 3; }" % cn,
+              "int %s::get_item(int n) const { return n * n; }" % cn,
+              "%s::Inner_part::Inner_part() {}" % cn, "int %s::Inner_part::get_x() const { return 77; }" % cn,
+              "int %s::operator + (int v) const { return _value + v; }" % cn, "int %s::operator - () const { return -_value; }" % cn,
+              "int %s::operator () (int v) const { return _value * v; }" % cn,
+              "bool %s::operator == (const %s &o) const { return _value == o._value; }" % (cn, cn),
+              "bool %s::operator < (const %s &o) const { return _value < o._value; }" % (cn, cn),
+              "%s &%s::operator += (int v) { _value += v; return *this; }" % (cn, cn),
+              "int %s::operator * (int v) const { return _value * v; }" % cn]
+        for g in ("static_method", "get_value", "set_value", "get_num_items", "get_item", "get_items"):
+            both(pyc, method_name_from_cpp, g)
+        sc.update(["value", "read_only_prop", "Inner_mode"])
+        for e in ("K_small", "K_very_large", "Inner_part"):
+            both(pyc, class_name_from_cpp, e)
+        # operators as dunder methods (and what CPython derives from the slots they fill); the
+        # comparison dunders exist on every object and are checked by evaluation instead;
+        # copy-constructible classes get __copy__ / __deepcopy__
+        sc.update(["__add__", "__neg__", "__call__", "__iadd__", "__mul__", "__radd__", "__rmul__",
+                   "__copy__", "__deepcopy__"])
+        exp[pyc + "." + class_name_from_cpp("Inner_part", False)] = {"get_x", "getX", "__copy__", "__deepcopy__"}
+        if ci in (0, 1):
+            o = "m.%s()" % pyc
+            ev.update({o + " + 5": repr(ci + 5), "-" + o: repr(-ci), o + "(7)": repr(ci * 7), o + " == " + o: "True",
+                       o + " * 3": repr(ci * 3), o + " < " + o: "False", o + " != " + o: "False", o + ".get_items()": "(0, 1, 4)", o + ".getItems()": "(0, 1, 4)",
+                       o + ".value": repr(ci), o + ".read_only_prop": repr(ci), "m.%s.K_very_large" % pyc: "11",
+                       "m.%s.KVeryLarge" % pyc: "11", "m.%s.Inner_mode.IM_a.value" % pyc: "3",
+                       "m.%s.Inner_part().get_x()" % pyc: "77", "m.%s.InnerPart().getX()" % pyc: "77",
+                       "m.%s.static_method(4)" % pyc: "8", "m.%s.staticMethod(4)" % pyc: "8",
+                       "(lambda o: (setattr(o, 'value', 31), o.get_value()))(%s)[1]" % o: "31",
+                       "(lambda o: (o.__iadd__(4), o.value))(%s)[1]" % o: repr(ci + 4)})
+    return "\n".join(H) + "\n", "\n".join(X) + "\n", exp, ev
+
+
+def names_check(work, asan=False):
+    """returns (list of disagreement texts, number of names compared, number of evaluations)"""
+    name = "c02n"
+    wd = os.path.join(work, name)
+    os.makedirs(wd, exist_ok=True)
+    h, x, exp, ev = names_library()
+    open(os.path.join(wd, "pub.h"), "w").write(pymod.PUBLISH_PRELUDE)
+    open(os.path.join(wd, name + ".h"), "w").write('#pragma once\n#include "pub.h"\n' + h)
+    open(os.path.join(wd, name + "_impl.cxx"), "w").write('#include "%s.h"\n' % name + x)
+    pymod.build_module(wd, name, [name + ".h"], [name + "_impl.cxx"], asan=asan, jobs=3)
+    script = dict(module=name, mode="names", classes=[c for c in exp if c], evals=sorted(ev))
+    json.dump(script, open(os.path.join(wd, "script.json"), "w"))
+    recs, rc, err = run_driver(wd, os.path.join(wd, "script.json"), os.path.join(wd, "out.ndjson"), asan=asan)
+    bad = []
+    if rc != 0:
+        bad.append("the interpreter died (%s) while inspecting the names module: %s" % (rc, err[-300:]))
+        return bad, 0, 0
+    names = next(r["names"] for r in recs if "names" in r)
+    vals = next(r["evals"] for r in recs if "evals" in r)
+    n = 0
+    for scope, want in sorted(exp.items()):
+        got = names["module"] if scope == "" else names.get(scope)
+        if got is None:
+            bad.append("class %s is not reachable under its documented name" % scope)
+            continue
+        got = set(got) - (MODULE_RUNTIME if scope == "" else RUNTIME_NAMES)
+        got = {g for g in got if not (scope and g.startswith("__") and g not in want and g in OBJECT_DUNDERS)}
+        n += len(want)
+        if got != want:
+            bad.append("names of %s: missing %s, unexpected %s" % (scope or "the module", sorted(want - got), sorted(got - want)))
+    for expr, want in sorted(ev.items()):
+        if vals.get(expr) != want:
+            bad.append("%s evaluates to %s, expected %s" % (expr, vals.get(expr), want))
+    return bad, n, len(ev)
+
+
+OBJECT_DUNDERS = set(dir(object)) | {"__dict__", "__module__", "__weakref__", "__doc__", "__getstate__"}
+
+
+# ---- tiny modules that show a generated-code defect by failing to build ------------------------------
+PROBES = {
+    "C02-string-manifest-uncompilable": (
+        '__begin_publish\n#define names_title "abc"\nint probe_f(int v);\n__end_publish\n',
+        "int probe_f(int v) { return v; }\n", {"m.names_title": ("'abc'", "'\"abc\"'"), "m.probe_f(2)": ("2",)}),
+    "C02-reference-default-call-uncompilable": (
+        "class PA {\nPUBLISHED:\n  PA();\n  static PA &gref();\n  int take(PA &other = PA::gref());\n  int get_v() const;\npublic:\n  int _v;\n};\n",
+        "PA::PA() : _v(5) {}\nPA &PA::gref() { static PA x; return x; }\nint PA::take(PA &o) { return o._v; }\nint PA::get_v() const { return _v; }\n",
+        {"m.PA().take()": ("5",), "m.PA().take(m.PA())": ("5",)}),
+}
+
+
+def probe_module(args):
+    work, cid = args
+    h, x, ev = PROBES[cid]
+    name = "c02p" + str(sorted(PROBES).index(cid))
+    wd = os.path.join(work, name)
+    os.makedirs(wd, exist_ok=True)
+    open(os.path.join(wd, "pub.h"), "w").write(pymod.PUBLISH_PRELUDE)
+    open(os.path.join(wd, name + ".h"), "w").write('#pragma once\n#include "pub.h"\n' + h)
+    open(os.path.join(wd, name + "_impl.cxx"), "w").write('#include "%s.h"\n' % name + x)
+    try:
+        pymod.build_module(wd, name, [name + ".h"], [name + "_impl.cxx"], jobs=2)
+    except pymod.PymodError as e:
+        return cid, ["the generated module does not build (%s): %s" % (e.stage, " ".join(e.detail.split())[-400:])], h
+    json.dump(dict(module=name, mode="names", classes=[], evals=sorted(ev)), open(os.path.join(wd, "script.json"), "w"))
+    recs, rc, err = run_driver(wd, os.path.join(wd, "script.json"), os.path.join(wd, "out.ndjson"))
+    if rc != 0:
+        return cid, ["the interpreter died (%s): %s" % (rc, err[-300:])], h
+    vals = next(r["evals"] for r in recs if "evals" in r)
+    return cid, ["%s evaluates to %s, expected one of %s" % (k, vals.get(k), v) for k, v in ev.items() if vals.get(k) not in v], h
+
+
+# ---- selection of the sets that are replayed ---------------------------------------------------------------
+def O(p, d=0, k=False):
+    return dict(p=list(p), d=d, k=k)
+
+
+# sets that are always replayed (each anchors one mechanism: the sort ranks, a range check, default
+# collapsing, the count switch, const dispatch, derived-to-base ranking)
+ANCHORS = [
+    dict(kind="method", ov=[O(["i32"]), O(["f64"])]),
+    dict(kind="method", ov=[O(["i32"]), O(["f64"]), O(["str"])]),
+    dict(kind="static", ov=[O(["u8"]), O(["str"])]),
+    dict(kind="method", ov=[O(["u8"])]),
+    dict(kind="method", ov=[O(["u8"], 1)]),
+    dict(kind="method", ov=[O(["i8"]), O(["f32"])]),
+    dict(kind="method", ov=[O(["u16"]), O(["cA"])]),
+    dict(kind="method", ov=[O(["i16", "str"], 1), O(["f64", "cA"], 1)]),
+    dict(kind="method", ov=[O(["i32", "i32"], 1), O(["str"])]),
+    dict(kind="static", ov=[O([]), O(["i32", "f64"], 1), O(["str", "str"])]),
+    dict(kind="method", ov=[O(["cA"]), O(["cB"])]),
+    dict(kind="method", ov=[O(["rA"]), O(["cB"])]),
+    dict(kind="method", ov=[O(["rA", "i32"], 1), O(["rB", "i32"], 1)]),
+    dict(kind="method", ov=[O(["i32"]), O(["i32"], 0, True)]),
+    dict(kind="method", ov=[O(["i32"], 1), O(["f64"], 1, True)]),
+    dict(kind="method", ov=[O(["str"], 0, True), O(["rA"])]),
+    dict(kind="method", ov=[O(["u32"]), O(["f64"])]),
+    dict(kind="method", ov=[O(["i64"]), O(["str"])]),
+    dict(kind="method", ov=[O(["u64", "str"]), O(["f64", "f64"])]),
+    dict(kind="static", ov=[O(["il"]), O(["bool", "bool"])]),
+    dict(kind="method", ov=[O(["ul"], 1), O(["cB", "str"], 1)]),
+    dict(kind="method", ov=[O(["f32", "bool"], 1)]),
+    dict(kind="method", ov=[O(["bool"]), O(["str", "i8"])]),
+]
+
+
+def set_key(s):
+    return json.dumps(dict(kind=s["kind"], ov=s["ov"]), sort_keys=True)
+
+
+def signature(s):
+    """coarse feature signature used to stratify the selection (input features only)"""
+    cats = sorted(set(c for o in s["ov"] for c in o["p"]))
+    coarse = sorted(set("int" if c in INTCATS else "flt" if c in ("f32", "f64") else "inst" if c[0] in "rc" and len(c) == 2 else c
+                        for c in cats))
+    return (s["kind"], len(s["ov"]), tuple(sorted(len(o["p"]) for o in s["ov"])), any(o["d"] for o in s["ov"]),
+            any(o["k"] for o in s["ov"]), tuple(coarse))
+
+
+def select_sets(dumped, cap):
+    """ANCHORS first, then round-robin over the feature signatures of the sorted dump (fixed rule,
+    independent of the seed)"""
+    seen, out = set(), []
+    for s in ANCHORS:
+        seen.add(set_key(s))
+        out.append(dict(kind=s["kind"], ov=s["ov"]))
+    buckets = {}
+    for s in sorted(dumped, key=set_key):
+        if set_key(s) not in seen:
+            seen.add(set_key(s))
+            buckets.setdefault(signature(s), []).append(s)
+    keys = sorted(buckets)
+    i = 0
+    while len(out) < cap and keys:
+        nxt = []
+        for k in keys:
+            b = buckets[k]
+            # spread inside a bucket: take the middle, then the rest alternately
+            out.append(b.pop(len(b) // 2))
+            if b:
+                nxt.append(k)
+            if len(out) >= cap:
+                break
+        keys = nxt
+        i += 1
+    return out
+
+
+def pick_native(rec, cap):
+    """calls compiled natively for the spec-vs-g++ comparison: all of a small set, else every k-th"""
+    n = len(rec["calls"])
+    if n <= cap:
+        return list(range(n))
+    step = -(-n // cap)
+    return list(range(0, n, step))
+
+
+def show_set(rec):
+    return rec["kind"] + " f: " + " | ".join(
+        "(" + ", ".join(CTYPE[c].replace(" &", "&") + (" =dflt" if i >= len(o["p"]) - o["d"] else "") for i, c in enumerate(o["p"])) + ")" +
+        (" const" if o["k"] else "") for o in rec["ov"])
+
+
+def show_call(call):
+    a = ", ".join(str(INTV[x["v"]]) if x["t"] == "int" else
+                  {"float": "2.5", "bool": "True", "str": "'aéz'", "bytes": "b'by'", "none": "None", "wrong": "object()",
+                   "iA": "A()", "iB": "B()", "iD": "D()", "iC": "C()", "kA": "A.cref()", "kB": "B.cref()"}[x["t"]] for x in call["a"])
+    return {"nc": "obj", "c": "constobj", "na": "Cls"}[call["self"]] + ".f(" + a + ")"
+
+
+FINDING_CLASSES = ["C02-int-error-ignored", "C02-unsigned-wraps", "C02-bytes-accepted-as-string", "C02-overflow-cleared",
+                   "C02-bool-takes-number-overload", "C02-bool-shadows-const-overloads", "C02-longer-overload-first", "C02-extra-arguments-ignored"]
+
+
+def run_check(ctx):
+    build.ensure("hooked")
+    tier = ctx.tier
+    quick = tier == "quick"
+    work = ctx.tmp
+    t_start = time.time()
+    from concurrent.futures import ThreadPoolExecutor
+    pool = ThreadPoolExecutor(max_workers=4)
+
+    # ---- side jobs that do not depend on the dispatch enumeration run in the background -------------
+    def objects_job():
+        dump = os.path.join(work, "objects.ndjson")
+        res = tlc.run("PyObjectsMC", "PyObjects_" + tier, workers=3, env={"VERIF_DUMP": dump}, timeout=1500)
+        hists = tlc.read_dump(dump)
+        hists.sort(key=lambda r: json.dumps(r, sort_keys=True))
+        return res, hists
+    f_obj = pool.submit(objects_job)
+    f_names = pool.submit(names_check, work)
+    f_probes = [pool.submit(probe_module, (work, cid)) for cid in sorted(PROBES)]
+
+    # ---- 1. TLC: enumerate the overload sets, check the refinement on every call of every set -------
+    dumped = []
+    cfgs = ["PyDispatch_quick1", "PyDispatch_quick2", "PyDispatch_quick3"] if quick else \
+           ["PyDispatch_thorough1", "PyDispatch_thorough2", "PyDispatch_thorough3"]
+
+    def tlc_job(cfg):
+        dump = os.path.join(work, cfg + ".ndjson")
+        res = tlc.run("PyDispatchMC", cfg, workers=2 if quick else 4, env=dict(fix_env(), VERIF_DUMP=dump), timeout=2400)
+        return res, tlc.read_dump(dump)
+    for res, recs in run.pmap(tlc_job, cfgs, workers=3):
+        ctx.add_tlc(res)
+        if res.verdict == "invariant":
+            raise MachineryError("PyDispatch: %s violated: the mechanism model does not refine the reference outside the "
+                                 "listed deviation classes\n%s" % (res.violated, res.out[-2500:]))
+        tlc.must_ok(res)
+        dumped += recs
+    uniq = {set_key(s): s for s in dumped}
+    n_sets_enumerated = len(uniq)
+    cap = 150 if quick else 1500
+    chosen = select_sets(list(uniq.values()), cap)
+
+    # ---- 2. TLC evaluates the spec on the chosen sets: every call with its reference result ---------
+    res, ev = eval_sets(work, chosen, workers=6)
+    ctx.add_tlc(res)
+    if res.verdict == "invariant":
+        raise MachineryError("PyDispatchEval: %s violated\n%s" % (res.violated, res.out[-2500:]))
+    tlc.must_ok(res)
+    if any(not e["calls"] for e in ev):
+        raise MachineryError("PyDispatchEval produced no calls for some chosen set")
+    ssets = list(enumerate(ev))
+    per = 25 if quick else 40
+    batches = [ssets[i:i + per] for i in range(0, len(ssets), per)]
+    jobs = [(work, bi, b, {sid: pick_native(rec, 120 if quick else 60) for sid, rec in b}, False) for bi, b in enumerate(batches)]
+    results = run.pmap(dispatch_batch, jobs, workers=3)
+
+    # ---- 3. judge ------------------------------------------------------------------------------------
+    prec = {c: [0, 0] for c in FINDING_CLASSES}
+    coarse = {c: [0, 0] for c in FINDING_CLASSES}
+    n_calls = n_native = n_claim = 0
+    model_miss = []
+    distinct = set()
+    for r in results:
+        b = batches[r["bi"]]
+        if "build_error" in r:
+            ctx.violation("a generated class library does not build (%s): %s" % r["build_error"],
+                          dict(batch=r["bi"], sets=[show_set(rec) for _, rec in b], error=r["build_error"]))
+            continue
+        if "native_error" in r:
+            raise MachineryError("g++ rejects the native sanity program of batch %d:\n%s" % (r["bi"], r["native_error"]))
+        for sid, rec in b:
+            for n, call in enumerate(rec["calls"]):
+                nat = r["native"].get((sid, n))
+                if nat is not None:
+                    n_native += 1
+                    if not native_agrees(call, nat):
+                        raise MachineryError("spec != g++: %s ; %s with C++ argument types %s: CppSelect = %s, g++ ran %r" % (
+                            show_set(rec), show_call(call), call["ct"], call["cpp"], nat))
+        if not r["finished"]:
+            at = r.get("last_at")
+            where = "step %r of the driver" % (at,)
+            if isinstance(at, list):
+                rec = dict(b)[at[0]]
+                where = "%s ; %s" % (show_set(rec), show_call(rec["calls"][at[1]]))
+            ctx.violation("the interpreter died (%s) during %s" % (r["rc"], where),
+                          dict(batch=r["bi"], rc=r["rc"], at=at, where=where, stderr=r["stderr"][-1500:]))
+            continue
+        for sid, rec in b:
+            for n, call in enumerate(rec["calls"]):
+                o = r["obs"].get((sid, n))
+                if o is None:
+                    ctx.violation("no observation for %s ; %s" % (show_set(rec), show_call(call)), dict(set=rec["ov"], call=call))
+                    continue
+                n_calls += 1
+                n_claim += call["e"] != "none"
+                if call["e"] == "run":
+                    distinct.add((set_key(rec), call["self"], json.dumps(call["a"], sort_keys=True)))
+                bad = judge_call(sid, rec, call, o, r["ids"])
+                # class membership (input only): the call is in a syntactic deviation class of the spec AND
+                # the spec's mechanism model, evaluated on the input, does not give the reference result
+                cls = call["dev"] if call["dis"] else []
+                for c in call["dev"]:
+                    coarse[c][1] += 1
+                    coarse[c][0] += bool(bad)
+                for c in cls:
+                    prec[c][1] += 1
+                    prec[c][0] += bool(bad)
+                for what, det in bad:
+                    ctx.violation("%s ; %s : %s" % (show_set(rec), show_call(call), det),
+                                  dict(set=rec, call={k: call[k] for k in ("a", "self", "e", "j", "ct")}, observed=o,
+                                       stat_key="%s %s->%s %s" % (what, call["e"], observed_kind(o)[0], call["dev"])),
+                                  classes=cls)
+                if not model_agrees(call, o):
+                    model_miss.append("%s ; %s : model %s, observed %s" % (show_set(rec), show_call(call), call["m"], observed_kind(o)))
+    # ---- 4. object histories ----------------------------------------------------------------------------
+    res, hists = f_obj.result()
+    ctx.add_tlc(res)
+    if res.verdict == "invariant":
+        raise MachineryError("PyObjects: invariant %s violated by the reference model\n%s" % (res.violated, res.out[-2500:]))
+    tlc.must_ok(res)
+    n_hist_enumerated = len(hists)
+    hcap = 300 if quick else 6000
+    if len(hists) > hcap:
+        step = -(-len(hists) // hcap)
+        hists = hists[::step]
+        ctx.notes["histories_sampled"] = "every %d-th of the %d sorted complete histories" % (step, n_hist_enumerated)
+    hl = list(enumerate(hists))
+    n_hist = judge_histories(ctx, work, "c02o", hl, False)
+    if not quick:
+        dump = os.path.join(work, "objects_sim.ndjson")
+        res = tlc.run("PyObjectsMC", "PyObjects_sim", workers=1, env={"VERIF_DUMP": dump}, simulate=1500, depth=26, timeout=1500)
+        ctx.add_tlc(res)
+        if res.verdict == "invariant":
+            raise MachineryError("PyObjects (simulation): invariant %s violated\n%s" % (res.violated, res.out[-2500:]))
+        tlc.must_ok(res)
+        sim = tlc.read_dump(dump)
+        sim.sort(key=lambda r: json.dumps(r, sort_keys=True))
+        n_hist += judge_histories(ctx, work, "c02os", list(enumerate(sim[:3000])), False)
+        # the same histories with the extension built with -fsanitize=address
+        if pymod.asan_runtime():
+            n_hist += judge_histories(ctx, work, "c02oa", hl, True)
+            ctx.notes["asan"] = "object histories repeated with -fsanitize=address (LD_PRELOAD libasan, detect_leaks=0)"
+        else:
+            ctx.notes["asan"] = "no libasan.so found: ASan repetition skipped"
+
+    # ---- 5. names, probes ----------------------------------------------------------------------------------
+    try:
+        bad, n_names, n_evals = f_names.result()
+    except pymod.PymodError as e:
+        bad, n_names, n_evals = ["the names library does not build (%s): %s" % (e.stage, e.detail[-800:])], 0, 0
+    for b in bad:
+        ctx.violation("names: " + b, dict(what=b, stat_key="names"))
+    for f in f_probes:
+        cid, bad, hdr = f.result()
+        prec.setdefault(cid, [0, 0])
+        prec[cid][1] += 1
+        prec[cid][0] += bool(bad)
+        for b in bad:
+            ctx.violation("%s: %s" % (cid, b), dict(header=hdr, what=b, stat_key=cid), classes=[cid])
+    pool.shutdown()
+
+    ctx.cov["evaluations"] = n_calls + n_hist + n_names + n_evals
+    ctx.cov["traces_validated_against_impl"] = n_calls + n_hist
+    ctx.cov["distinct_nontrivial"] = len(distinct) + n_hist
+    ctx.cov["exhaustive"] = False
+    ctx.cov["rule"] = ("TLC enumerates every overload set of the configured alphabets (<= 3 overloads x 1 parameter over all 18 "
+                       "parameter categories, <= 2 overloads x 2 parameters and <= 3 x 2 over reduced alphabets; methods, const "
+                       "methods, static functions; trailing defaults) and checks PySelect = Expected on every call tuple of "
+                       "every set; a fixed stratified selection of the sets is replayed completely on built extension modules; "
+                       "distinct = distinct (set, call) pairs on which the property demands a specific overload to run (non-trivial: "
+                       "resolution had to pick among overloads or convert), plus replayed object histories (each uses a returned "
+                       "wrapper); exhaustive only with respect to TLC, the replay is a selection")
+    ctx.notes.update(sets_enumerated=n_sets_enumerated, sets_replayed=len(chosen), modules_built=len(batches) + 2 + len(PROBES),
+                     calls_replayed=n_calls, calls_with_claim=n_claim, calls_compiled_natively=n_native,
+                     histories_enumerated=n_hist_enumerated, histories_replayed=n_hist, names_compared=n_names,
+                     name_evaluations=n_evals, finding_class_failed_of_members=prec,
+                     syntactic_class_failed_of_members=coarse,
+                     mechanism_model_mismatches=len(model_miss), mechanism_model_mismatch_examples=model_miss[:5])
+    for sid, rec in ssets[:: max(1, len(ssets) // 4)][:4]:
+        c = next((c for c in rec["calls"] if c["e"] == "run"), rec["calls"][0])
+        ctx.sample(dict(overloads=show_set(rec), call=show_call(c), expected=c["e"], overload=c["j"], cpp_types=c["ct"]))
+    if hl:
+        ctx.sample(dict(history=[[s["op"], s["w"], s["src"]] for s in hl[len(hl) // 2][1]["steps"]]))
+
+
+def judge_histories(ctx, work, name, hl, asan):
+    r = objects_batch((work, name, hl, asan))
+    if "build_error" in r:
+        ctx.violation("the object library does not build (%s): %s" % r["build_error"], dict(error=r["build_error"]))
+        return 0
+    n = 0
+    if not r["finished"]:
+        at = r.get("last_at")
+        h = dict(hl).get(at[1]) if isinstance(at, list) and len(at) == 2 else None
+        ctx.violation("the interpreter died (%s)%s during the history %s" % (
+            r["rc"], " under ASan" if asan else "", [[s["op"], s["w"], s["src"]] for s in h["steps"]] if h else at),
+            dict(rc=r["rc"], at=at, stderr=r["stderr"][-2500:], asan=asan))
+    for hid, h in hl:
+        o = r["obs"].get(hid)
+        if o is None:
+            continue
+        n += 1
+        for b in judge_history(h, o):
+            ctx.violation("object history %s: %s" % ([[s["op"], s["w"], s["src"]] for s in h["steps"]], b),
+                          dict(history=h["steps"], observed=o, asan=asan, stat_key="objects"))
+    return n
